@@ -38,6 +38,8 @@ theorem call_openEnd_C3b (s : Store) (fsHas : Nat → Bool) (op : Op) :
     simp only [Store.call]
     split
     · exact Nat.le_refl _
+    split
+    · exact Nat.le_refl _
     · split
       · split <;> exact Nat.le_refl _
       · have := appendAndApply_facts_C3b s fsHas (.purgeUpto upto)
@@ -53,7 +55,10 @@ theorem call_lift_purge_noop_C3b (s : Store) (cs : List Closed) (fsHas : Nat →
     (nxt : Nat) (hn : nextIndexChecked s.st.purged = some nxt) (hlt : upto.index < nxt) :
     (s.liftC3b cs).call fsHas (.purge upto) = liftResC3b cs (s.call fsHas (.purge upto)) ∧
       (s.call fsHas (.purge upto)).2.1.removed = s.removed := by
-  simp only [Store.call, Store.liftC3b_st, hn, hlt, if_true, Store.liftC3b_openOffsets]
+  by_cases hidxD12 : upto.index + 1 = U64
+  · rw [call_purge_refused_D12 _ _ _ hidxD12, call_purge_refused_D12 _ _ _ hidxD12]
+    exact ⟨rfl, rfl⟩
+  simp only [Store.call, if_neg hidxD12, Store.liftC3b_st, hn, hlt, if_true, Store.liftC3b_openOffsets]
   cases lastSegment s.openOffsets <;> exact ⟨rfl, rfl⟩
 
 /-! ### Flush -/
@@ -177,7 +182,10 @@ theorem GInvC3b.call_purge {s : Store} {fs : Fs} {w : Worker} {r r' : RefLog} {W
     have := nextIndexChecked_eq habs.pf.purged
     simp only [Store.liftC3b_st] at this
     rw [this, hpu]
-  rw [call_purge_C3b s fsHas upto _ hn hnn hx]
+  have hidxD12 : upto.index + 1 ≠ U64 := by
+    have : upto.index + 1 < U64 := hsm
+    omega
+  rw [call_purge_C3b s fsHas upto _ hn hnn hidxD12 hx]
   simp only
   obtain ⟨pre, hpre, hids, hall⟩ := popObsolete_pre_C3b upto s1.closed
   generalize hs2 : ({ s1 with closed := (popObsolete upto s1.closed).2, removed := s1.removed ++ (popObsolete upto s1.closed).1 } : Store) = s2
